@@ -135,3 +135,30 @@ def write_char_post(ex, st, pre, flow, val, args):
     fail = z3.And(pos == pre["pos"], size == pre["size"], chg == old_changed, blk.fields["static"].t == pre["static"],
                   z3.BoolVal(getattr(st, "pending_exc", None) is MemoryError))
     ex.oblige(st, "_write_char:on-failure-MemoryError-set-writer-unchanged", "post", z3.Implies(rc == -1, fail), None, {})
+
+
+# ---------------------------------------------------------------- __setstate__ (C09)
+
+def setstate_pre(ex, st, args):
+    return {"state": args[1]}
+
+
+def setstate_post(ex, st, pre, flow, val, args):
+    """after __setstate__ the five slots are the pickled parts and the memo is empty, for both
+    state shapes (the tuple written by __getstate__ and the default-protocol dict)"""
+    import z3
+    from pyvc import values as V
+    obj = st.tr(args[0])
+    state = pre["state"]
+    parts = state.items[0] if not isinstance(state.items[0], VNone) else state.items[1].d["_val"]
+    if flow != "return":
+        ex.oblige(st, "__setstate__:returns", "post", z3.BoolVal(False), None, {})
+        return
+    names = ("_scheme", "_netloc", "_path", "_query", "_fragment")
+    ok = []
+    for n, p in zip(names, parts.items):
+        f = obj.fields.get(n)
+        ok.append(z3.BoolVal(False) if f is None else ex.equal(st, f, p))
+    ex.oblige(st, "__setstate__:slots-are-the-pickled-parts", "post", z3.And(ok), None, {})
+    c = obj.fields.get("_cache")
+    ex.oblige(st, "__setstate__:memo-is-empty", "post", z3.BoolVal(isinstance(c, V.VDict) and not c.d), None, {})
